@@ -4202,7 +4202,7 @@ fn get_arg_type(s: &str, quoted: bool) -> ArgType {
                 return ArgType::List;
             }
         }
-        if !c.is_ascii_digit() {
+        if !c.is_ascii_digit() && c != '.' {
             if c != '-' || prevc != None {
                 numeric = false;
             }
